@@ -591,3 +591,117 @@ def _index_by_key(f, ix, inits, expected='expected_keys', depth=0):
     if p and p in inits:
         return _index_by_key(f, strip_casts(inits[p]), inits, expected, depth + 1)
     return False, 'by `%s` (a position, not a key lookup)' % ix.text(4)
+
+
+P5_FUNCS = ('PyTreeSpec::EqualTo', 'PyTreeSpec::IsPrefix', 'PyTreeSpec::BroadcastToCommonSuffix',
+            'PyTreeSpec::Compose')
+
+
+@rule('P5', floor=4, title='operations on two treespecs reject differing none_is_leaf and conflicting namespaces - and nothing else')
+def p5(ctx):
+    """A treespec pair is compatible when the none_is_leaf flags agree and the namespaces agree or
+    one of them is empty.  In every binary operation the incompatible outcome of each test leads
+    to the rejection (return false / throw) without reaching the node-by-node work, and the
+    compatible outcomes (equal flags; an empty namespace; equal namespaces) all reach it."""
+    prog = ctx.cxx()
+    from .common import strip_casts, unnegate, emptiness_test
+    for name in P5_FUNCS:
+        f = prog.one(name)
+        cfg = cfg_of(f)
+        others = [p[0] for p in f.params if 'PyTreeSpec' in (p[1] or '')]
+        ctx.require(len(others) == 1, '%s: the other treespec parameter not recognised' % inst(f))
+        o = others[0]
+        # the work: the first loop over nodes (all four walk the node arrays); for a function
+        # without a loop of its own, the call that does the walking
+        heads = sorted({w for (v, w) in cfg.back_edges})
+        work = heads[:1]
+        if not work:
+            for c in calls_in(f.body):
+                t = callee_func(prog, f, c)
+                if t is not None and t.record == f.record and t.name.endswith('Impl'):
+                    work = [cfg.cnode_of(c)]
+                    break
+        ctx.require(work and work[0] is not None, '%s: the node-by-node work not located' % inst(f))
+        work = work[0]
+
+        def paths(e):
+            return member_path(strip_casts(e)) if e is not None else None
+
+        def classify(e):
+            """('flag'|'ns', differ-outcome) or ('empty', which, empty-outcome) or None"""
+            base, pos = unnegate(e)
+            if base is None:
+                return None
+            ops = None
+            if base.kind == 'BinaryOperator' and base.op in ('==', '!=') and len(base.kids) == 2:
+                ops = (base.op, base.kids[0], base.kids[1])
+            elif base.kind == 'CXXOperatorCallExpr' and base.callee_name() in ('operator==', 'operator!=') and \
+                    len(base.kids) == 3:
+                ops = (base.callee_name()[-2:], base.kids[1], base.kids[2])
+            if ops:
+                a, b = paths(ops[1]), paths(ops[2])
+                for fld, tag in (('m_none_is_leaf', 'flag'), ('m_namespace', 'ns')):
+                    if {a, b} == {fld, '%s.%s' % (o, fld)} or {a, b} == {'this.' + fld, '%s.%s' % (o, fld)}:
+                        differ = (ops[0] == '!=')
+                        return tag, (differ if pos else not differ)
+            et = emptiness_test(e, lambda b: paths(b) in ('m_namespace', 'this.m_namespace',
+                                                          '%s.m_namespace' % o))
+            if et is not None:
+                return 'empty', et[0], ('other' if (paths(et[1]) or '').startswith(o + '.') else 'this')
+            return None
+        found = {'flag': [], 'ns': [], 'empty': []}
+        empties = []
+        for cn in cfg.nodes:
+            if cn.kind != 'cond' or cn.ast is None:
+                continue
+            c = classify(cn.ast)
+            if c is not None:
+                found[c[0]].append((cn, c[1]))
+                if c[0] == 'empty':
+                    empties.append((cn, c[1], c[2]))
+        problems = []
+        for tag, label in (('flag', 'none_is_leaf'), ('ns', 'namespace')):
+            if not found[tag]:
+                problems.append('no comparison of the two %s values' % label)
+            for cn, differ in found[tag]:
+                bad = cfg.reachable_from([w for (w, lab) in cfg.succ[cn.idx] if lab is differ])
+                good = cfg.reachable_from([w for (w, lab) in cfg.succ[cn.idx] if lab is (not differ)])
+                if work in bad:
+                    problems.append('differing %s values reach the node-by-node work (`%s`)' % (label, cn.ast.text(4)))
+                if work not in good:
+                    problems.append('equal %s values are rejected (`%s`)' % (label, cn.ast.text(4)))
+                if not cfg.dominates(cn.idx, work) and tag == 'flag':
+                    problems.append('the %s comparison is not made on every path to the work' % label)
+        for cn, empty_outcome in found['empty']:
+            good = cfg.reachable_from([w for (w, lab) in cfg.succ[cn.idx] if lab is empty_outcome])
+            if work not in good:
+                problems.append('an empty namespace is rejected (`%s`)' % cn.ast.text(4))
+        # an empty namespace on either side is a wildcard: the comparison is reached only when
+        # both are non-empty
+        for which in ('this', 'other'):
+            def nonempty_edge(v, w, lab, which=which):
+                for cn_, empty_outcome, wh in empties:
+                    if cn_.idx == v and wh == which and lab is (not empty_outcome) and lab in (True, False):
+                        return True
+                return False
+            r = cfg.reachable_from([cfg.entry.idx], nonempty_edge)
+            hit = [cn for cn, _ in found['ns'] if cn.idx in r]
+            if hit:
+                problems.append('the namespaces are compared although %s namespace may be empty (a wildcard)'
+                                % ('this treespec\'s' if which == 'this' else 'the other treespec\'s'))
+        # with both namespaces non-empty the comparison cannot be skipped
+        if found['ns']:
+            nsn = {cn.idx for cn, _ in found['ns']}
+
+            def skip(v, w, lab):
+                cnv = cfg.nodes[v]
+                if cnv.kind != 'cond' or cnv.ast is None:
+                    return False
+                c = classify(cnv.ast)
+                return c is not None and c[0] == 'empty' and lab is c[1]      # drop the "is empty" edges
+            r = cfg.reachable_from([cfg.entry.idx], skip, nsn)
+            if work in r:
+                problems.append('two non-empty namespaces can reach the work without being compared')
+        ctx.check('%s/compatibility' % short(f), not problems,
+                  '%s rejects exactly differing none_is_leaf and two different non-empty namespaces' % inst(f),
+                  '%s: %s' % (inst(f), '; '.join(problems)), f.loc)
